@@ -9,10 +9,13 @@ import (
 	"errors"
 	"fmt"
 	"io"
+	"net/http"
 	"net/http/httptest"
 	"net/textproto"
 	"sort"
+	"strconv"
 	"strings"
+	"sync"
 	"time"
 
 	"github.com/gin-gonic/gin"
@@ -232,35 +235,82 @@ type observation struct {
 	body      string
 }
 
-func (c cell) run() (obs observation) {
-	ep := &config.EndpointConfig{Endpoint: "/a", Method: "GET", Timeout: time.Hour, CacheTTL: c.ttl, OutputEncoding: c.rv.outputEnc}
-	for i := 0; i < c.rv.nBackends; i++ {
-		ep.Backend = append(ep.Backend, &config.Backend{Encoding: c.rv.backEnc})
+// instance: ONE handler built for one endpoint configuration (implementation, render,
+// cache ttl, endpoint timeout, translator); the stubbed proxy answers each request with the
+// (response, error) pair of the spec the request names in its X-Case header, so that several
+// different requests can go through the same handler, one after the other or concurrently.
+type instance struct {
+	cfg   cell
+	specs []cell
+	h     http.Handler
+}
+
+func newInstance(cfg cell, specs []cell) *instance {
+	ep := &config.EndpointConfig{Endpoint: "/a", Method: "GET", Timeout: time.Hour, CacheTTL: cfg.ttl,
+		OutputEncoding: cfg.rv.outputEnc, HeadersToPass: []string{"X-Case"}}
+	for i := 0; i < cfg.rv.nBackends; i++ {
+		ep.Backend = append(ep.Backend, &config.Backend{Encoding: cfg.rv.backEnc})
 	}
-	if c.ctxDone == 1 {
+	if cfg.ctxDone == 1 {
 		ep.Timeout = 0
 	}
-	var resp *proxy.Response
-	if c.resp != nil {
-		resp = c.resp.build()
+	p := func(_ context.Context, r *proxy.Request) (*proxy.Response, error) {
+		k := 0
+		if v := r.Headers["X-Case"]; len(v) > 0 {
+			k, _ = strconv.Atoi(v[0])
+		}
+		sp := specs[k]
+		var resp *proxy.Response
+		if sp.resp != nil {
+			resp = sp.resp.build()
+		}
+		var perr error
+		if sp.err != nil {
+			perr = sp.err.build()
+		}
+		return resp, perr
 	}
-	var perr error
-	if c.err != nil {
-		perr = c.err.build()
-	}
-	p := func(_ context.Context, _ *proxy.Request) (*proxy.Response, error) { return resp, perr }
 	var errF server.ToHTTPError = server.DefaultToHTTPError
-	if !c.defF {
-		code := c.errf
+	if !cfg.defF {
+		code := cfg.errf
 		errF = func(error) int { return code }
 	}
-	saved := core.KrakendHeaderValue
-	core.KrakendHeaderValue = c.ver
-	defer func() { core.KrakendHeaderValue = saved }()
+	in := &instance{cfg: cfg, specs: specs}
+	switch cfg.impl {
+	case "Gin":
+		e := gin.New()
+		e.GET("/a", luragin.CustomErrorEndpointHandler(logging.NoOp, errF)(ep, p))
+		in.h = e
+	case "Mux":
+		in.h = mux.CustomEndpointHandlerWithHTTPError(mux.NewRequest, errF)(ep, p)
+	case "MuxEngine":
+		e := mux.DefaultEngine()
+		e.Handle("/a", "GET", mux.CustomEndpointHandlerWithHTTPError(mux.NewRequest, errF)(ep, p))
+		in.h = e
+	default:
+		panic("impl")
+	}
+	return in
+}
 
+// cellOf is the complete input of request k on this instance: configuration of the
+// instance, (response, error, request context) of the spec
+func (in *instance) cellOf(k int) cell {
+	c := in.cfg
+	sp := in.specs[k]
+	c.resp, c.err, c.ver = sp.resp, sp.err, sp.ver
+	if in.cfg.ctxDone != 1 {
+		c.ctxDone = sp.ctxDone
+	}
+	return c
+}
+
+// serve sends request k through the instance (core.KrakendHeaderValue is set by the caller)
+func (in *instance) serve(k int) (obs observation) {
 	rec := httptest.NewRecorder()
 	req := httptest.NewRequest("GET", "/a", nil)
-	if c.ctxDone == 2 {
+	req.Header.Set("X-Case", strconv.Itoa(k))
+	if in.cfg.ctxDone != 1 && in.specs[k].ctxDone == 2 {
 		ctx, cancel := context.WithCancel(req.Context())
 		cancel()
 		req = req.WithContext(ctx)
@@ -272,20 +322,7 @@ func (c cell) run() (obs observation) {
 				obs.panicMsg = fmt.Sprint(r)
 			}
 		}()
-		switch c.impl {
-		case "Gin":
-			e := gin.New()
-			e.GET("/a", luragin.CustomErrorEndpointHandler(logging.NoOp, errF)(ep, p))
-			e.ServeHTTP(rec, req)
-		case "Mux":
-			mux.CustomEndpointHandlerWithHTTPError(mux.NewRequest, errF)(ep, p)(rec, req)
-		case "MuxEngine":
-			e := mux.DefaultEngine()
-			e.Handle("/a", "GET", mux.CustomEndpointHandlerWithHTTPError(mux.NewRequest, errF)(ep, p))
-			e.ServeHTTP(rec, req)
-		default:
-			panic("impl")
-		}
+		in.h.ServeHTTP(rec, req)
 	}()
 	if obs.panicked {
 		return
@@ -298,6 +335,20 @@ func (c cell) run() (obs observation) {
 	obs.ctype = res.Header.Get("Content-Type")
 	b, _ := io.ReadAll(res.Body)
 	obs.body = string(b)
+	return
+}
+
+func withVersion(ver string, f func()) {
+	saved := core.KrakendHeaderValue
+	core.KrakendHeaderValue = ver
+	defer func() { core.KrakendHeaderValue = saved }()
+	f()
+}
+
+// run: a fresh instance for this one cell
+func (c cell) run() (obs observation) {
+	in := newInstance(c, []cell{c})
+	withVersion(c.ver, func() { obs = in.serve(0) })
 	return
 }
 
@@ -457,8 +508,9 @@ func main() {
 		w.Meta["samples"] = []interface{}{}
 	}
 
-	add := func(c cell, stream string) {
-		o := c.run()
+	var addObs func(c cell, o observation, stream string)
+	add := func(c cell, stream string) { addObs(c, c.run(), stream) }
+	addObs = func(c cell, o observation, stream string) {
 		flagged := c.inFinding()
 		term := emit.App("CCase", emit.Bool(flagged), c.coqInput(), o.coq())
 		js := map[string]interface{}{"stream": stream, "input": c.js(), "observed": o.js()}
@@ -537,6 +589,51 @@ func main() {
 		add(c, "corpus")
 		c.resp = nil
 		add(c, "corpus")
+	}
+
+	// instance reuse, most telling order first: ONE handler per implementation and render serves
+	// partial, failed, complete, partial, empty, failed, complete+metadata, (nil, nil) in a row;
+	// every step is an ordinary case (the property is about THIS request's pair)
+	tellingSpecs := func() []cell {
+		partial := &respSpec{dataJS: dataPool[0], complete: false, status: 200, io: strp("p")}
+		complete := &respSpec{dataJS: dataPool[1], complete: true, status: 200, io: strp("c")}
+		empty := &respSpec{dataJS: dataEmpty, complete: true, status: 200, io: strp("e")}
+		withMeta := &respSpec{dataJS: dataPool[0], complete: true, meta: map[string][]string{"X-Meta": {"m"}}, status: 200, io: strp("m")}
+		v := "Version undefined"
+		return []cell{
+			{resp: partial, ver: v},
+			{err: &errSpec{kind: "plain", msg: "failed #1"}, ver: v},
+			{resp: complete, ver: v},
+			{resp: partial, ver: v},
+			{resp: empty, ver: v},
+			{err: &errSpec{kind: "status", code: 404, msg: "failed #2"}, ver: v},
+			{resp: withMeta, ver: v},
+			{ver: v},
+			{resp: partial, err: &errSpec{kind: "merge", msg: "partial and failed"}, ver: v},
+			{resp: complete, ver: v},
+			{resp: &respSpec{dataNil: true, complete: true}, ver: v},
+		}
+	}
+	sequence := func(cfgc cell, specs []cell, order []int, stream string) {
+		in := newInstance(cfgc, specs)
+		for _, k := range order {
+			c := in.cellOf(k)
+			var o observation
+			withVersion(c.ver, func() { o = in.serve(k) })
+			addObs(c, o, stream)
+		}
+	}
+	for _, impl := range impls {
+		for _, rn := range []string{"RJson", "RNoop"} {
+			c := std(impl, rn)
+			c.ttl = time.Hour
+			sp := tellingSpecs()
+			order := make([]int, len(sp))
+			for i := range order {
+				order[i] = i
+			}
+			sequence(c, sp, order, "corpus-reuse")
+		}
 	}
 
 	// ---- 2. exhaustive core product ----
@@ -724,5 +821,88 @@ func main() {
 		add(c, "random")
 	}
 
-	w.Close("real gin CustomErrorEndpointHandler, mux CustomEndpointHandlerWithHTTPError and the same behind mux.DefaultEngine (HTTPErrorInterceptor), proxy stubbed by a scripted (response, error) pair; corpus; exhaustive core product impl(3) x render x response shape (nil | {empty,non-empty} x complete x metadata headers {none,unrelated,colliding,...}) x error kinds x ttl x context expired; error status sweep 100..999 (+ invalid codes), translator answers, no-op metadata statuses; structured random over the full product (renders json/no-op/string/json-collection reached through output_encoding or the backend encoding, nil data map, ttl incl. sub-second/negative, version header value); compared: status, values of X-Krakend-Completed / Cache-Control / X-Krakend, body (JSON tree or raw bytes); nontrivial = anything but (no error, live context, non-empty complete response without metadata, ttl 0, json render)", true)
+	// ---- 5. instance reuse ----
+	// (a) sequential: one handler, 3-6 different requests in random order
+	nseq := 60
+	if cfg.Thorough() {
+		nseq = 600
+	}
+	for q := 0; q < nseq; q++ {
+		c := cell{impl: impls[q%3], errf: 500, defF: true}
+		rn := renderNames[[]int{0, 0, 1, 0, 2, 3}[r.Intn(6)]]
+		c.rv = renders[rn][r.Intn(len(renders[rn]))]
+		c.ttl = []time.Duration{time.Hour, 0, time.Second}[r.Intn(3)]
+		if r.Chance(1, 4) {
+			c.defF, c.errf = false, 503
+		}
+		sp := tellingSpecs()
+		if r.Chance(1, 3) {
+			for i := range sp {
+				sp[i].ver = verPool[r.Intn(len(verPool))]
+			}
+		}
+		if c.impl != "Gin" && r.Chance(1, 3) {
+			sp[r.Intn(len(sp))].ctxDone = 2
+		}
+		steps := 3 + r.Intn(4)
+		order := make([]int, steps)
+		for i := range order {
+			order[i] = r.Intn(len(sp))
+		}
+		if r.Bool() {
+			order[0] = 2 // a complete response first: whatever follows must not inherit it
+		}
+		sequence(c, sp, order, "reuse-seq")
+	}
+	// (b) concurrent: one handler hit from 12 goroutines released together; every distinct
+	// (input, observation) pair is emitted once - without interference one case per input
+	for _, impl := range impls {
+		for _, rn := range []string{"RJson", "RNoop"} {
+			c := std(impl, rn)
+			c.ttl = time.Hour
+			sp := tellingSpecs()
+			in := newInstance(c, sp)
+			const goroutines, iterations = 12, 40
+			type seenT struct {
+				k int
+				o observation
+			}
+			res := make([]map[string]seenT, goroutines)
+			start := make(chan struct{})
+			var wg sync.WaitGroup
+			withVersion(c.ver, func() {
+				for g := 0; g < goroutines; g++ {
+					res[g] = map[string]seenT{}
+					wg.Add(1)
+					go func(g int) {
+						defer wg.Done()
+						<-start
+						for it := 0; it < iterations; it++ {
+							k := (g*5 + it) % len(sp)
+							o := in.serve(k)
+							res[g][fmt.Sprintf("%03d|%s", k, o.coq())] = seenT{k, o}
+						}
+					}(g)
+				}
+				close(start)
+				wg.Wait()
+			})
+			all := map[string]seenT{}
+			for _, m := range res {
+				for key, v := range m {
+					all[key] = v
+				}
+			}
+			keys := make([]string, 0, len(all))
+			for key := range all {
+				keys = append(keys, key)
+			}
+			sort.Strings(keys)
+			for _, key := range keys {
+				addObs(in.cellOf(all[key].k), all[key].o, "reuse-concurrent")
+			}
+		}
+	}
+
+	w.Close("real gin CustomErrorEndpointHandler, mux CustomEndpointHandlerWithHTTPError and the same behind mux.DefaultEngine (HTTPErrorInterceptor), proxy stubbed by a scripted (response, error) pair; corpus; exhaustive core product impl(3) x render x response shape (nil | {empty,non-empty} x complete x metadata headers {none,unrelated,colliding,...}) x error kinds x ttl x context expired; error status sweep 100..999 (+ invalid codes), translator answers, no-op metadata statuses; instance reuse: one handler serving a sequence of different (response, error) pairs (telling order in the corpus, 60 random sequences of 3-6 steps; thorough 600) and the same handler hit from 12 goroutines (distinct (input, observation) pairs); structured random over the full product (renders json/no-op/string/json-collection reached through output_encoding or the backend encoding, nil data map, ttl incl. sub-second/negative, version header value); compared: status, values of X-Krakend-Completed / Cache-Control / X-Krakend, body (JSON tree or raw bytes); nontrivial = anything but (no error, live context, non-empty complete response without metadata, ttl 0, json render)", true)
 }
